@@ -38,7 +38,8 @@ def gen_case(r):
     missing = None
     if n > 0 and r.random() < 0.2:
         missing = r.choice(list(files))
-        files[missing] = None
+        # unreadable: the file does not exist, or the name is a directory (exists, cannot be read as a file)
+        files[missing] = None if r.random() < 0.5 else ISDIR
     text = "\n".join(lines)
     if r.random() < 0.7:
         text += "\n"
@@ -49,11 +50,16 @@ def gen_case(r):
     return text.encode(), files
 
 
+ISDIR = b"\x00<a directory stands under this name>"
+
+
 def run_tool(tool, lst, files, stale=False):
     d = tempfile.mkdtemp(prefix="c18.", dir=vlib.BUILD)
     try:
         for name, content in files.items():
-            if content is not None:
+            if content is ISDIR:
+                os.makedirs(os.path.join(d, name))
+            elif content is not None:
                 open(os.path.join(d, name), "wb").write(content)
         open(os.path.join(d, "filelist.txt"), "wb").write(lst)
         if stale:
@@ -71,7 +77,7 @@ def run_tool(tool, lst, files, stale=False):
 
 
 def oracle_input(lst, files):
-    fs = " ".join("(%s %s)" % (hx(n.encode()), hx(c)) for n, c in files.items() if c is not None)
+    fs = " ".join("(%s %s)" % (hx(n.encode()), hx(c)) for n, c in files.items() if c is not None and c is not ISDIR)
     return "(c18.run %s (%s))" % (hx(lst), fs)
 
 
@@ -100,6 +106,8 @@ def run(ctx):
     cases.append((b"\n\n", {}))
     cases.append((b"only.fo", {"only.fo": b"x"}))
     cases.append((b"gone.fo Title\n", {"gone.fo": None}))
+    cases.append((b"adir.fo Title\n", {"adir.fo": ISDIR}))
+    cases.append((b"ok.fo One\nadir.fo Two\n", {"ok.fo": b"let a = 1\n", "adir.fo": ISDIR}))
     for _ in range(150 if ctx.tier == "quick" else 4000):
         cases.append(gen_case(r))
     ins, outs = [], []
@@ -126,7 +134,7 @@ def run(ctx):
         for (i, e, o) in mism[:3]:
             # the model's answer is proved to be the documented README: mismatch = failing input
             ctx.direct.append({"kind": "README.md differs from the specified rendering", "input": i, "specified": e[:3000], "tool": o[:3000]})
-    ctx.finish(rule="generated directories (0..12 entries, titles with spaces / markdown / %, entries without title, blank lines in the list, contents with fences, %, control bytes, no trailing newline, one unreadable file in 20% of the cases) + the repository's samples/filelist.txt; the rebuilt tool's README.md bytes and exit status vs the model; distinct = distinct directories")
+    ctx.finish(rule="generated directories (0..12 entries, titles with spaces / markdown / %, entries without title, blank lines in the list, contents with fences, %, control bytes, no trailing newline, one unreadable entry - missing, or a directory under that name - in 20% of the cases) + the repository's samples/filelist.txt; the rebuilt tool's README.md bytes and exit status vs the model; distinct = distinct directories")
 
 
 def replay(ctx, path):
